@@ -44,6 +44,22 @@ CLAIMS = {
     "Row allocations are assumed to request >= 1 row (condim in {1,3,4,6}).",
     "design_ref": "DESIGN.md 3 (C16), 9.1",
   },
+  "C30": {
+    "text": "Contracts on the real history-buffer functions, stated over the logical view L(i), V(i) of a circular buffer: "
+    "_history_physical_index maps [0,n) injectively into [0,n) with the newest sample at the cursor; _history_find_index (while loop "
+    "with the invariant L(lo) < t <= L(hi)) returns 0 / n outside the buffered interval and otherwise the index r with "
+    "L(r-1) < t <= L(r); _history_read_scalar, run against that contract, returns the end values outside the interval, the sample itself "
+    "within 1e-6 of a sample time, and otherwise the zero-order-hold value V(j) or the linear interpolant on the bracket [L(j), L(j+1)] "
+    "that find_index returned; _history_insert_scalar with a time newer than the newest sample advances the cursor by one modulo n, "
+    "appends (t, value) and shifts every other logical sample by one, writing nothing outside the buffer's own cells. The ctrl kernels "
+    "read at time - delay from the actuator's own buffer with its own interpolation (ctrl itself without a buffer or delay) and insert "
+    "(time, ctrl) into it, launched over all actuators of all worlds on Data.history/ctrl/time.",
+    "note": _BASE + "Buffer well-formedness (n >= 1, 0 <= cursor < n, integer-valued cursor cell) is a precondition: put_data copies "
+    "MuJoCo's buffers and insert preserves it, but make_data / reset_data do not produce MuJoCo's initial buffer (defects D1 and D2, "
+    "DESIGN.md 7: recorded, not repaired, and outside what this check claims). Not decided: cubic interpolation, vector-valued sensor "
+    "buffers and sensor intervals, out-of-order inserts, termination of the binary search.",
+    "design_ref": "DESIGN.md 3 (C30), 12.5",
+  },
   "C36": {
     "text": "A result can depend on process history only through state that outlives a call. Over the real source of every module: "
     "(G1) every module-level object mutated by a function is in the declared frame {warp_util._KERNEL_CACHE, warp_util._STACK}; (G2) no "
@@ -93,11 +109,26 @@ CLAIMS = {
     "overflowed njmax are outside the claim.",
     "design_ref": "DESIGN.md 3 (C39)",
   },
+  "C17": {
+    "text": "BOUNDS schema over every kernel of the repository (census re-enumerated on every run, all closure specialisations, every "
+    "launch site, the real kernel body executed symbolically): each array subscript whose index is pure index arithmetic -- thread ids, "
+    "loop counters, integer parameters, slots returned by atomic_add -- is proved to satisfy 0 <= idx < shape for the launch extents "
+    "of that site, under the kernel's own guards (capacity tests such as `efcid >= njmax_in: return`, live-range tests against "
+    "nacon / nefc). Array shapes and size parameters are tied to the extents of the types.py field specs, temporaries to their "
+    "allocation in the launching host function. About 6600 obligations; they hold for all sizes and capacities at once, including the "
+    "degenerate ones (njmax = 0, naconmax = 0, nv = 0) no fixture has.",
+    "note": _BASE + "Structural part of the property only. Not claimed: subscripts whose index, loop bound or guard depends on values "
+    "stored in Model / Data (listed by kernel, formal and dimension in contracts/bounds_needs_wf.txt; they need MODEL_WF facts or "
+    "producer contracts), launches whose extent is not an expression over model / data sizes, kernels outside the dialect "
+    "(contracts/scope_C17.txt), everything about 'never crashes' beyond array bounds and about put_model / make_data rejecting invalid "
+    "configurations. make_data / put_data allocating exactly the spec shapes is assumed.",
+    "design_ref": "DESIGN.md 3 (C17), 12.6",
+  },
   "C20": {
     "text": "Contracts on the real closed-form contact functions, callers checked against callee contracts: math.orthogonals / "
     "math.make_frame return an orthonormal right-handed frame whose first row is the normalised normal (Lagrange and triple-product "
-    "identities as separately proved lemmas); collision_primitive_core.plane_sphere, sphere_sphere, sphere_capsule, plane_capsule and "
-    "plane_box satisfy the geometric spec taken from the statement: the normal is unit (and parallel to the centre line / equal to the "
+    "identities as separately proved lemmas); collision_primitive_core.plane_sphere, sphere_sphere, sphere_capsule, plane_capsule, "
+    "plane_box and sphere_box (in the box frame, centre inside / outside, plus a two-run pose-covariance obligation for a general box pose) satisfy the geometric spec taken from the statement: the normal is unit (and parallel to the centre line / equal to the "
     "plane normal), and the two points pos -/+ normal*dist/2 lie on the surface of the first / second geom, i.e. dist is the signed "
     "separation along the normal and pos is midway between the surfaces; plane_capsule's frame is orthonormal in both of its branches; "
     "the plane_sphere and sphere_sphere wrappers store make_frame(core normal), core dist and core pos in the contact they allocate. "
@@ -105,7 +136,7 @@ CLAIMS = {
     "note": _BASE + "Exact over the reals. Geoms are assumed well-formed (radii >= 0, unit plane normals and capsule axes, orthonormal "
     "geom rotations). closest_segment_point is regularised by 1e-6, so capsule pairs are proved to touch a point OF the axis segment, "
     "not the closest one. plane_ellipsoid is proved only for its plane side. capsule_capsule, sphere_cylinder, plane_cylinder, "
-    "sphere_box, capsule_box, box_box, triangles, height fields, GJK/EPA and the convex multi-contact paths are not under contract; of "
+    "capsule_box, box_box, triangles, height fields, GJK/EPA and the convex multi-contact paths are not under contract; of "
     "the wrappers only plane_sphere and sphere_sphere are.",
     "design_ref": "DESIGN.md 3 (C20), 12.5",
   },
@@ -152,6 +183,23 @@ CLAIMS = {
     "note": _BASE + "T4 for the nsolving counter; wp.capture_while semantics external. iterations < 0 outside the precondition; "
     "iterations == 0 read as 'no transition'. Tile intrinsics abstracted to row writes (enough for guards).",
     "design_ref": "DESIGN.md 3 (C25), 9.2",
+  },
+  "C12": {
+    "text": "Host-level data-flow analysis of the real orchestration code of forward() and step() (Euler, implicit, RK4; events in "
+    "source order, calls inlined, conditions as propositional atoms, every launch joined with the access summary of the real kernel): "
+    "(STALE_READ) every Data / solver-context array that a launch reads and that is not part of the integration state has been "
+    "written earlier in the same call under conditions that cover the read (z3 over the atoms; a launch over an empty extent "
+    "reads nothing) -- a read without an earlier writer is information from whatever the Data object did before; (ACC_INIT) every "
+    "array a kernel of step() accumulates into is (re)initialised earlier in the same step; (counters) nefc, ne, nf, nl, nacon, "
+    "ncollision, jtdaj_nblock are zeroed before their first use on every path that reaches it. Found and repaired: the connect / "
+    "weld row builders read cvel / cdof_dot of the PREVIOUS call (forward() of two Data objects with the same state differed by 0.9 "
+    "in qacc, and from MuJoCo).",
+    "note": _BASE + "Event-level analysis: that the earlier writer covers every CELL the reader uses is the live-range discipline of "
+    "the shared buffers (C09 SLOT, C17 BOUNDS), not decided here. Claimed with sleeping disabled (sleep bookkeeping is state outside "
+    "the statement's list). Fields whose first read cannot be justified propositionally are listed with reasons in "
+    "contracts/stale_read_reviewed.txt; entries of kind 'conditions' still require an earlier writer. Bit-identity of floating-point "
+    "sums, kernels outside the dialect (syntactic summaries) and user callbacks are outside the claim.",
+    "design_ref": "DESIGN.md 3 (C12), 12.7",
   },
   "C13": {
     "text": "io.reset_data is executed symbolically as a whole (host code + its five nested kernels bound through the real launch sites, "
